@@ -1,7 +1,9 @@
 (* C05 correspondence driver: evaluates the extracted acceptors of Model/Plan.v on the REAL
    plans recorded by harness/src/bin/c05.rs.
    Case:  P <nodes> <ring> <keyspaces> <flags> <policy> <request>
-   Impl:  <pick> <fallback> <plan> <plan> <plan> *)
+   Impl:  <pick> <fallback> <plan> <plan> <plan>
+   Case:  L <nodes> <ring> <keyspaces> <flags at pick()> <flags at fallback()> <policy> <request>
+   Impl:  <plan> | nopick (replay only: pick() yields nothing under the first flags) | panic *)
 
 let opt_n s = if s = "_" then None else Some (n_of_hex s)
 
@@ -86,7 +88,12 @@ let verdict case impl =
       | _ -> failwith "bad request" in
     (match impl with
      | ["panic"] -> "viol panic"
-     | ["nopick"] -> "ok not-applicable: pick() yields no target under the first liveness (replayed case)"
+     | ["nopick"] ->
+       (* the runner skips such cases when generating; in a replayed case the absence of a first
+          target is itself judged by the extracted pick acceptor (C05_pick_accepted) *)
+       if pick_matches dcf rackf g kss en1 co1 pol rq None
+       then "ok not-applicable: pick() yields no target under the first liveness (replayed case)"
+       else "diff two-reads pick() yields nothing although a target is acceptable under the first liveness"
      | [pl] ->
        (match List.map fst (parse_tgts pl) with
         | [] -> "diff two-reads empty plan although pick() yields a target"
@@ -100,10 +107,10 @@ let verdict case impl =
           if structure then "ok"
           else begin
             (* what must survive a liveness change: enabled when chosen, permitted, the rest duplicate-free,
-               and the picked target itself not repeated when nothing changed for that node *)
-            let perm n = permitted dcf g pol rq n in
-            let safe = en1 h && perm h && List.for_all (fun n -> en2 n && perm n) rest && nodupb rest
-                       && not (mem h rest && g2 < 8 && (g1 < 3) = (g2 < 3)) in
+               and the picked target itself not repeated when nothing changed for that node: the extracted
+               two_reads_safe_b (C05_two_reads_safe_b_sound; C05_two_reads_accept_safe: nothing accepted
+               above fails it; C05_two_reads_model_safe: the model passes it) *)
+            let safe = two_reads_safe_b dcf rackf g kss en1 co1 en2 co2 pol rq (h :: rest) in
             (if safe then "diff" else "viol") ^ Printf.sprintf " two-reads pick=%b g1=%d g2=%d plan=%s" pk1 g1 g2 (string_of_nlist (h :: rest))
           end)
      | _ -> "error bad-impl-output")
